@@ -177,3 +177,10 @@ def run_case(case, drv):
             break
     res.nontrivial = n >= 2 and ninadm >= 1
     return res
+
+
+EXHAUSTIVE_SCOPE = FU.EXHAUSTIVE_FORMS_SCOPE
+
+
+def gen_exhaustive():
+    yield from FU.gen_exhaustive_forms(("arc", "seq"))
